@@ -2801,7 +2801,10 @@ class Env(cabc.MutableMapping):
                 self._set_item(k, v, thread_local=True)
         # kwargs could also have been sent in
         for k, v in kwargs.items():
-            old[k] = self._capture_for_swap(k, local)
+            # a key already given in ``other`` was captured there; capturing
+            # it again would record the swapped-in value as the one to restore
+            if k not in old:
+                old[k] = self._capture_for_swap(k, local)
             self._set_item(k, v, thread_local=True)
 
         if overlay is not None:
